@@ -101,11 +101,22 @@ func drawWriterPlan(t *simrt.Tape, maxN int, big bool) writerPlan {
 		p.LongSeq = true
 		lo, hi = 70000, 100000
 	}
-	p.Recs = genRecs(t, total, 0, p.Kind == wkFastq || (p.Kind == wkCSV && p.CSVCols&8 != 0 && t.Choose(2) == 1), lo, hi)
+	p.Recs = genRecs(t, total, 0, p.Kind == wkFastq || (p.Kind == wkJSON && t.Choose(2) == 1) || (p.Kind == wkCSV && p.CSVCols&8 != 0 && t.Choose(2) == 1), lo, hi)
+	if p.Kind == wkJSON || p.Kind == wkFastq {
+		// quality strings are arbitrary printable ASCII: '\\' is Q59, 'u' Q84, digits Q15-24
+		for i := range p.Recs {
+			if q := p.Recs[i].Qual; len(q) >= 8 && t.Choose(3) == 2 {
+				at := t.Choose(len(q) - 6)
+				for j, c := range []byte([]string{"\\u0041", "\\uzz~!", "\\\\\"\\n"}[t.Choose(3)]) {
+					q[at+j] = c - 33
+				}
+			}
+		}
+	}
 	if p.Kind == wkJSON {
 		for i := range p.Recs {
 			if t.Choose(4) == 3 {
-				p.Recs[i].Def = []string{`a "quoted" word`, "5' <-> 3' & more", "tab\there", "caf\u00e9 au lait", `back\\slash`}[t.Choose(5)]
+				p.Recs[i].Def = []string{`a "quoted" word`, "5' <-> 3' & more", "tab\there", "caf\u00e9 au lait", `back\\slash`, `literal \u0041 and \uzz`}[t.Choose(6)]
 			}
 		}
 	}
@@ -734,7 +745,11 @@ func runC18(rc *RunCtx) {
 	t := rc.Plan
 	mode := t.Choose(8) // 1 enumerated offset on the fixed corpus, 2 close fault on the fixed corpus, 7 command stage, else random plan
 	if mode == 7 {
-		c18Command(rc, t)
+		if t.Choose(2) == 1 {
+			c18FileLimit(rc, t)
+		} else {
+			c18Command(rc, t)
+		}
 		return
 	}
 	var p writerPlan
